@@ -554,7 +554,7 @@ def run (j : Json) : Except String Json := do
   let nbrs := listFn adj []
   let rate := ComplexFam.rateOf2 fam nodes nbrs tau gamma k
   let infl : (Node → St) → Node → List Node := fun st u => ComplexFam.inflOf2 fam nodes nbrs st u
-  let P : CCParams St := ⟨nodes, rate, ComplexFam.chooseOf fam, infl, ret.map getSt⟩
+  let P : CCParams St := ⟨nodes, rate, ComplexFam.chooseOf2 fam nbrs k, infl, ret.map getSt⟩
   match (Complex.run P (fun u => getSt (ic.getD u "S")) tmin tmax 100000 1000) { tape := tape } with
   | .error e => pure (errObj e)
   | .ok (s, ts) =>
